@@ -142,8 +142,11 @@ def install(project, evolutions=None, migrations=None, extra_installed=()):
             cls = type(str(ms['name']), (models.Model,), attrs)
             setattr(mm, ms['name'], cls)
         evo = (evolutions or {}).get(label)
+        epath = os.path.join(path, 'evolutions')
+        if evo is None and os.path.isdir(epath):
+            # a stale directory would be importable as a namespace package
+            shutil.rmtree(epath)
         if evo is not None:
-            epath = os.path.join(path, 'evolutions')
             os.makedirs(epath, exist_ok=True)
             em = _mod(label + '.evolutions', epath, True)
             em.SEQUENCE = list(evo['SEQUENCE'])
